@@ -179,7 +179,7 @@ EXTRA8 = {
     "C10": " KEYDATA: remove_key removes every data item of the key (C02.EVERY on remove_key).",
     "C12": " SPLIT: split_text's constructor and SplitTextIter::next, interpreted together, hand the resource's byte->codepoint conversion the absolute bytes of each piece. UNIT follows Option::map into closures.",
     "C13": " FLAG evaluates add() on members with and without handles.",
-    "C17": " SETLOCAL: no collection of the exporter is keyed by a set-local handle.",
+    "C17": " SETLOCAL: no collection of the exporter is keyed by a set-local handle. TEMPLATE: a free-text replacement is the last substitution into a template.",
 }
 
 TECH_EXTRA = {
